@@ -44,3 +44,8 @@ VARIANTS += [
     M('C12', 'refactor-exclusions-extended-by-one-item-list', E(GT, "                    substrings.append(specific_string)", "                    substrings += [specific_string]"), kind='refactor'),
     M('C12', 'path-under-cwd-decided-by-prefix-alone', E(GT, "path.startswith(cwd + os.path.sep)", "path.startswith(cwd)"), rule='C12-JOINREPR', key='as_join_repr'),
 ]
+
+UT2 = 'tdda/referencetest/utils.py'
+VARIANTS += [
+    M('C12', 'extension-compared-as-written', E(UT2, "    return os.path.splitext(path)[1].lower()[1:] if path else ''", "    return os.path.splitext(path)[1][1:] if path else ''"), rule='C12-FILEKIND', key='ext=PNG'),
+]
